@@ -4,6 +4,7 @@ from __future__ import annotations
 
 import ast
 import operator as op
+import os
 import re
 from typing import Any, Dict, List, Optional, Set, Tuple, Union
 
@@ -91,6 +92,15 @@ _CMP = {
 }
 
 ANALOG_PIN_RE = re.compile(r"^A\d+$")
+
+# Verification hook (off unless REDUINO_VERIF=1): lines the statement parser skips without
+# translating them are recorded here as (scope, depth, text, reason).  Purely additive.
+_VERIF_IGNORED_LINES: List[Tuple[str, int, str, str]] = []
+
+
+def _verif_note_ignored(scope: str, depth: int, text: str, reason: str) -> None:
+    if os.environ.get("REDUINO_VERIF") == "1":
+        _VERIF_IGNORED_LINES.append((scope, depth, text, reason))
 
 
 def _escape_string_literal(value: str) -> str:
@@ -4161,6 +4171,7 @@ def _parse_simple_lines(
                 and isinstance(expr_node.func, ast.Name)
                 and expr_node.func.id == "print"
             ):
+                _verif_note_ignored(scope, depth, line, "print")
                 i += 1
                 continue
             if isinstance(expr_node, ast.Call) and isinstance(expr_node.func, ast.Name):
@@ -4225,10 +4236,13 @@ def _parse_simple_lines(
                         _eval_const(line, vars)
                     except Exception:
                         body.append(ExprStmt(expr=expr_c))
+                    else:
+                        _verif_note_ignored(scope, depth, line, "constant-expression")
                 i += 1
                 continue
 
         # unknown → ignore
+        _verif_note_ignored(scope, depth, line, "unknown")
         i += 1
 
     return body
